@@ -110,7 +110,8 @@ def judge_all(prop, cfg, lines, impl, model, incidents):
             if len(samples) < 6 and (evaluations % 997 == 1):
                 samples.append({"line": l[:300], "implementation": a[:300], "model": (model[i] or "")[:400]})
         for f in fs:
-            if len(findings) < 200:
+            # up to 200 of each kind are kept: a flood of correspondence findings must not crowd out the failing input
+            if ctx.stats.get("findings_" + f.kind, 0) < 200:
                 findings.append(f)
             ctx.count("findings_" + f.kind)
     return ctx, findings, evaluations, len(distinct), samples
